@@ -56,6 +56,9 @@ def cases(rng, quick):
     for _ in range(n):
         nreg = rng.randint(1, 4)
         regs = ["q%d" % r for r in rng.sample([0, 1, 2, 3, 5, 7, 12, 100, 255], nreg)]
+        if rng.random() < 0.2:
+            # unusual but valid spellings of register numbers: leading zeros (q01 is the register of mode 1)
+            regs = [("q0" + r[1:] if rng.random() < 0.6 else "q00" + r[1:]) for r in regs]
         lines = [HDR + "float x = 0.75\nint n = 3"]
         ctx = rng.random()
         if ctx < 0.25:
